@@ -82,7 +82,7 @@ Definition emitted_agree (det : bool) (a b : list (list json)) : bool :=
   if det then list_eqb batch_eqb a b else perm_eqb batch_eqb a b.
 
 (** ---------- model against implementation ---------- *)
-Definition sio_fuel : nat := 600.
+Definition sio_fuel : nat := 3000.
 
 (** Each check compares only the observables of its own property:
     - C14: Emitted, the two service-machine probes, and - in steps during
